@@ -28,7 +28,7 @@ stream, `a` Append, `r` After; `-` none) · `post <ref> <user> <init|badinit|pin
 `postx <user> <kind>` (a creating POST during which the server closes the new session between `Connect`
 and the publication in `h.sessions` — F20) ·
 `release <slot>` · `abandon <slot>` (the client of that POST goes away, its handler keeps running) ·
-`get|delete|other <ref> <user>` · `bad <ctype|accept|getaccept|noserver> <ref> <user>` (a request the handler
+`get|delete|other <ref> <user>` · `bad <ctype|accept|getaccept|noserver|origin|host> <ref> <user>` (a request the handler
 refuses before it reads the session id: Gate.lean) · `tick <ms>` · `close <ref>` · `postb <ref> <user>` (the HEADERS of a POST
 carrying a `ping` arrive, its body follows in pieces; the request is named `u<n>`, n = the harness's count of
 asynchronous requests) · `body <n> more|end` (a piece / the last piece of that body arrives) · `end`;
@@ -393,6 +393,8 @@ def parseWhy (s : String) : Option Why :=
   | "accept" => some .accept
   | "getaccept" => some .getAccept
   | "noserver" => some .noServer
+  | "origin" => some .origin
+  | "host" => some .host
   | _ => none
 
 def Why.text : Why → String
@@ -400,6 +402,8 @@ def Why.text : Why → String
   | .accept => "POST whose Accept lacks application/json or text/event-stream"
   | .getAccept => "GET whose Accept lacks text/event-stream"
   | .noServer => "POST without a session id for which getServer returns nil"
+  | .origin => "cross-site POST under CrossOriginProtection"
+  | .host => "request on a loopback address with a foreign Host"
 
 def GateClause.text : GateClause → String
   | .answered w st => s!"C11:request that must be refused ({w.text}) answered {st.render}"
